@@ -3,7 +3,7 @@
    Reference level (K/MK, proofs/KProofs.v): when exactly the receiving end is gone. *)
 From Coq Require Import ZArith List Lia.
 From IPC Require InprocSrv InprocSrvProofs.
-From IPC Require Import U64 Params Frag ParamsFacts FragProofs PipeProofs K KProofs KDed Prog Ideal IdealProofs.
+From IPC Require Import U64 Params Frag ParamsFacts FragProofs PipeProofs FragOrder K KProofs KDed Prog Ideal IdealProofs.
 Import ListNotations.
 Open Scope Z_scope.
 
@@ -68,6 +68,16 @@ Theorem C09_prefix_defect_kept_alive : forall k m d ch,
   dead (get_chan (k_close k (RR m)) d) = false.
 Proof. exact ded_kept_alive_by_sender_copy. Qed.
 Print Assumptions C09_prefix_defect_kept_alive.
+
+(* ... and the hypothesis of C09_dedicated_dies_with_receiver ("the sender holds no copy of the dedicated receiving end") is
+   established by send() itself (packet level, Frag): for EVERY length, buffer size, attachment count and fault oracle, and
+   whatever the outcome, no follow-up fragment is transmitted on the dedicated socket before the sender has closed its copy
+   of the dedicated read end (EvCloseDedRx precedes every EvSend in the trace the correspondence check compares with the
+   system calls of the real crate) *)
+Theorem C09_read_end_released_before_follow_ups : forall fuel S len nfds faults o evs,
+  send fuel S len nfds faults = (o, evs) -> rx_before_send false evs = true.
+Proof. exact send_rx_closed_before_follow_ups. Qed.
+Print Assumptions C09_read_end_released_before_follow_ups.
 
 Example C09_ex_transit :
   snd (i_run i_init [ONew; ONew; OSend 0 1%Z [ARx 3]; OSend 2 7%Z []; ORecv 1; ORecv 4; ODrop 1; ODrop 4; OSend 2 8%Z []])
